@@ -146,6 +146,15 @@ def _add_anonymous_aliases(structure, type_definition):
                 ir_data_utils.builder(new_alias).abbreviation.CopyFrom(
                     subfield.abbreviation
                 )
+            # The alias is what the enclosing structure's text output shows, so it
+            # keeps the [text_output] choice of the field it stands for.
+            for attribute in subfield.attribute:
+                if attribute.name.text == "text_output" and not (
+                    attribute.back_end and attribute.back_end.text
+                ):
+                    alias_attribute = ir_data_utils.copy(attribute)
+                    _mark_as_synthetic(alias_attribute)
+                    new_alias.attribute.append(alias_attribute)
             _mark_as_synthetic(new_alias.existence_condition)
             _mark_as_synthetic(new_alias.read_transform)
             new_fields.append(new_alias)
